@@ -228,7 +228,7 @@ PROPS = {
     "C09": {
         "required_theorems": ["c09_gate_iff", "c09_gate_rejects", "c09_gate_needs_bearer", "c09_token_is_a_field", "c09_gate_accepts", "c09_login_iff",
                               "c09_no_login_without_live_path", "c09_listing_only_subtrees", "c09_listing_edges_are_live", "gen_auth_pinned"],
-        "n": {"quick": 600, "thorough": 12000},
+        "n": {"quick": 600, "thorough": 6000},
         "thorough_seeds": 3,
         "rule": "one in-process instance with auth token (embedded NATS, store, HTTP API; restarted every 150 cases). gate cases: an HTTP request (5 methods x 6 node routes incl. create, points, "
                 "parents, notification) whose Authorization header is built from a template: absent, the auth token plain / padded / prefixed / truncated / extended, a JWT without scheme, "
@@ -252,7 +252,7 @@ PROPS = {
     "C08": {
         "required_theorems": ["c08_foreign_delivered", "c08_own_filtered", "c08_only_from_below", "c08_edge_points_delivered", "c08_order",
                               "c08_fold_holds_store", "c08_fold_rows_equal", "gen_feed_pinned"],
-        "n": {"quick": 500, "thorough": 8000},
+        "n": {"quick": 500, "thorough": 3000},
         "thorough_seeds": 3,
         "rule": "one in-process instance; per case a tree under a fresh group: an instrumented client node (type vdev, registered through the public client.NewManager) under the group or an inner group, "
                 "0-2 vchild children, a grandchild, an unrelated node, sometimes a second client with the first child mirrored below it, sometimes a diamond (child reachable by two paths), initial points; "
@@ -270,7 +270,7 @@ PROPS = {
     },
     "C07": {
         "required_theorems": ["c07_wanted_iff", "c07_one_client_per_placement", "c07_quiesce", "c07_exit_removes", "c07_children_current_kept", "c07_stop_returns", "gen_manager_pinned"],
-        "n": {"quick": 250, "thorough": 5000},
+        "n": {"quick": 250, "thorough": 2000},
         "thorough_seeds": 3,
         "rule": "one in-process instance; per case a client.Manager[Vdev] with configured parent type vparent runs while a history is executed under a fresh group: containers (group, vparent, plain device = not a "
                 "parent type), client nodes c1/c2 created in one or several placements, vchild children added, edges of every kind deleted and undeleted (placements, children, containers), foreign "
@@ -288,7 +288,7 @@ PROPS = {
     "C15": {
         "required_theorems": ["c15_replace_consistent", "c15_preserve_sends_same", "c15_marker_top_only", "c15_blank_key_restored", "c15_edge_points_kept",
                               "c15_exports_live_only", "gen_export_pinned", "gen_export_constants_pinned"],
-        "n": {"quick": 500, "thorough": 10000},
+        "n": {"quick": 500, "thorough": 4000},
         "thorough_seeds": 3,
         "rule": "two in-process instances A and B; per case a tree of 1-6 nodes (5 node types) under a fresh group on A, sometimes with a mirror inside the subtree, a deleted child, a deleted-then-undeleted "
                 "child (explicit tombstone 0), an outside node; 0-3 points per node (types description/value/level/tag/nodeID/note, keys ''/0/1/a, point tombstones 0-2, origins) with 34 plain and "
@@ -306,7 +306,7 @@ PROPS = {
     },
     "C02": {
         "required_theorems": ["c02_no_write_lost", "c02_points_converge", "c02_exchange_converges_on_stores", "c02_equal_hash_is_skipped", "gen_sync_pinned"],
-        "n": {"quick": 300, "thorough": 6000},
+        "n": {"quick": 300, "thorough": 2000},
         "thorough_seeds": 3,
         "rule": "two in-process instances (downstream A with root RA, upstream B with root RB holding RA after a first catch-up); per case a group G under RA: a shared base of 1-4 nodes with points built on A "
                 "(nodes created the SendNode way: tombstone 0 + node type; 1 in 14 bare; 1 case in 5 with a node placed under two parents), two catch-up passes, then 1-6 divergent writes on A and on B "
@@ -325,7 +325,7 @@ PROPS = {
     },
     "C04": {
         "required_theorems": ["c04_recovered_consistent", "c04_all_or_nothing", "c04_acked_not_lost", "c04_batch_present", "gen_tx_pinned", "gen_pragmas_pinned"],
-        "n": {"quick": 250, "thorough": 6000},
+        "n": {"quick": 250, "thorough": 3000},
         "thorough_seeds": 4,
         "rule": "a separate writer process (the harness binary in mode c04-writer) opens a store file and executes 5-35 batches, acknowledging each on stdout: a chain of 2-9 nodes (deep hash propagation), "
                 "sometimes a mirror, node-point batches of 1-4 or 20-100 points over 40 keys, edge-point batches; the parent kills it with SIGKILL after a delay drawn uniformly from the expected run time "
@@ -344,7 +344,7 @@ PROPS = {
     },
     "C20": {
         "required_theorems": ["c20_reads_monotone", "c20_acked_write_visible", "c20_final_serial_and_consistent", "c20_commit_order_irrelevant"],
-        "n": {"quick": 40, "thorough": 1500},
+        "n": {"quick": 40, "thorough": 500},
         "thorough_seeds": 3,
         "extra": [race_check],
         "rule": "per case a fresh in-process instance (embedded NATS, store, HTTP); 1-6 writer and 1-5 reader goroutines, each with its own bus connection, perform 10-59 operations each on three nodes "
